@@ -222,4 +222,22 @@ def sessions (rtK : κ → κ) (rtB : β → β) (cfg : List (RunC κ)) (H : Har
 
 end
 
+/-! ## Vocabulary of the C08 statements -/
+
+/-- length of the longest prefix `1..j` (`j ≤ n`) on which `f` holds throughout -/
+def prefLen (f : Nat → Bool) : Nat → Nat
+  | 0 => 0
+  | n + 1 => if prefLen f n = n ∧ f (n + 1) = true then n + 1 else prefLen f n
+
+/-- invocation `t` of run `i` delivers data -/
+def delivers (H : Harness) (i t : Nat) : Bool :=
+  match H.out i t with
+  | some dps => ! dps.isEmpty
+  | none => false
+
+/-- `K r`: how many invocations of run `i` get recorded in the end — the
+longest prefix of `1..N` that all deliver data, or none if a build of the run fails -/
+def recordedInTheEnd {κ : Type} (H : Harness) (c : RunC κ) (i : Nat) : Nat :=
+  if c.builds.all H.buildOk then prefLen (delivers H i) c.invocations else 0
+
 end RB.Session
